@@ -18,7 +18,7 @@ import (
 
 func init() {
 	register("C03", func(c *Ctx) { runE2E(c, "C03") })
-	register("C01", func(c *Ctx) { runE2E(c, "C01") })
+	register("C01", func(c *Ctx) { runE2E(c, "C01"); runC01Race(c) })
 	register("C02", func(c *Ctx) { runE2E(c, "C02") })
 	register("C05", func(c *Ctx) { runE2E(c, "C05"); runC05Stage(c) })
 	register("C08", func(c *Ctx) { runE2E(c, "C08") })
@@ -114,6 +114,25 @@ func genSpec(rng *rand.Rand, prop string, i int) *e2eSpec {
 		if rng.Intn(6) == 0 {
 			sp.RecvCrashAt = append(sp.RecvCrashAt, 1+rng.Intn(60))
 		}
+		if rng.Intn(4) == 0 {
+			// a growing file: several payloads, appended to again and again while it is
+			// queued / in flight; the receiver knows earlier versions of the name
+			if len(sp.Files) > 2 {
+				sp.Files = sp.Files[:1+rng.Intn(2)]
+			}
+			sp.Files[0].Size = 4*conf.PayloadSize + int64(rng.Intn(500))
+			conf.Tags[0].Chunk = conf.PayloadSize/2 + 1
+			conf.Threads = 1 + rng.Intn(2)
+			conf.Tags[0].Delete = true
+			conf.Tags[0].DeleteDelay = 0
+			sp.Mutations = nil
+			at := 8 + rng.Intn(20)
+			for k := 0; k < 3+rng.Intn(3); k++ {
+				sp.Mutations = append(sp.Mutations, mutation{AtAction: at, File: 0, Kind: "append"})
+				at += 6 + rng.Intn(25)
+			}
+			sp.SenderCrashAt, sp.RecvCrashAt = nil, nil
+		}
 	case "C05":
 		sp.Consume = rng.Intn(2) == 0
 		for k := 0; k < 1+rng.Intn(4); k++ {
@@ -183,10 +202,14 @@ func e2eOne(c *Ctx, prop string, idx int, seed int64, sp *e2eSpec, dir string) {
 	if dp := os.Getenv("VERIF_DUMP"); dp != "" {
 		b, _ := json.MarshalIndent(map[string]any{"events": o.events, "final": o.final, "staged": o.staged, "sources": o.sources, "cache": o.cache,
 			"delivered": o.delivered, "logged": o.logged, "requests": o.reqs, "final_tree": treeListing(o.w.recv.FinalDir)}, "", " ")
+		if strings.Contains(dp, "%d") {
+			dp = fmt.Sprintf(dp, idx)
+		}
 		_ = os.WriteFile(dp, b, 0o644)
 	}
 	oracleIntegrity(o, v)
 	oracleRelease(o, v)
+	oraclePollTiming(o, v)
 	oracleProgress(o, v)
 	oracleOnce(o, v)
 	oracleLedger(o, v)
@@ -263,12 +286,16 @@ var accepts = map[string]map[string]bool{
 // boundary actions); then one run per chosen index crashes exactly there.
 func runCrashEnum(c *Ctx, prop string) {
 	nScen := c.N(6, 40)
-	capK := c.N(90, 100000)
+	capK := c.N(170, 100000)
 	idx := 0
 	for sidx := 0; sidx < nScen; sidx++ {
+		if only := os.Getenv("VERIF_SCEN"); only != "" && only != fmt.Sprint(sidx) {
+			continue
+		}
 		srng := rand.New(rand.NewSource(c.Seed*7919 + int64(sidx)))
 		sp0 := genSpec(srng, "crash-base", sidx)
 		sp0.Faults, sp0.Mutations, sp0.SenderCrashAt, sp0.RecvCrashAt = nil, nil, nil, nil
+		sp0.Conf.Tags[0].DeleteDelay = 0
 		// scenario shapes: single small file; multi-part; chain in one payload; renamed; deletion
 		switch sidx % 6 {
 		case 0:
@@ -281,6 +308,22 @@ func runCrashEnum(c *Ctx, prop string) {
 			sp0.Conf.Rename = true
 		case 4:
 			sp0.Conf.Tags[0].Delete = true
+		case 5:
+			// a name that is delivered twice: the second version's receive / validate /
+			// log / move steps are crash points while the first version sits in the
+			// final directory
+			sp0.Files = genFiles(srng, 2, sp0.Conf.PayloadSize)
+			sp0.Conf.Tags[0].Delete = false
+			sp0.Conf.Tags[0].Order = sts.OrderNone
+			sp0.Conf.ScanDelay = 5 * time.Second
+			sp0.QuietMutations = []mutation{{File: 0, Kind: "replace"}}
+			// the first delivery lies more than a day back: known to the restarted
+			// receiver only if it looks far enough into its log
+			sp0.QuietGapHours = 60
+			sp0.Conf.ScanDelay = 10 * time.Minute
+			if prop != "C06" {
+				sp0.QuietMutations = nil
+			}
 		}
 		if prop == "C07" && srng.Intn(2) == 0 {
 			// make sure payloads are cut mid-way so that partial receptions exist at the crash
